@@ -31,6 +31,7 @@ func runC09(c *Ctx) {
 	ruleDedup(c, a)
 	ruleSearch(c, "SEARCH", 2)
 	ruleSnapshot(c) // every key bound to the listener is tried, whatever the last-client-IP state
+	ruleRegister(c, "REGISTER")
 	ruleKeyBytes(c) // a bound key authenticates however the first bytes are segmented: the finder reads them all before searching
 	// "exactly": after a reload that keeps an address, the handle of the old generation must stop taking connections and
 	// datagrams of the shared socket the moment it is released, or the old generation's keys keep working there
@@ -917,4 +918,92 @@ func sameLoad(a, b ssa.Value) bool {
 		}
 	}
 	return false
+}
+
+// ruleRegister (C09/C10): the listener set's bookkeeping of close functions never overwrites an entry — every insertion is
+// behind the "absent" edge of a lookup of the same map under the same key. An overwritten close function belongs to a
+// listener that the next reload no longer closes: the old generation keeps serving its keys there.
+func ruleRegister(c *Ctx, rule string) {
+	p := c.P
+	lsT := mainM(c).lsT
+	var fields []string
+	for _, fl := range p.StructFields(lsT) {
+		if mt, ok := fl.Type().Underlying().(*types.Map); ok {
+			if _, isFn := mt.Elem().Underlying().(*types.Signature); isFn {
+				fields = append(fields, fl.Name())
+			}
+		}
+	}
+	if !c.Floor(rule, "close-function maps of the listener set", len(fields), 1) {
+		return
+	}
+	isField := func(v ssa.Value) bool {
+		return p.AnyFrom(v, eng.OriginOpts{ThroughConvert: true}, func(x ssa.Value) bool {
+			for _, f := range fields {
+				if eng.IsFieldLoad(x, lsT, f) {
+					return true
+				}
+			}
+			return false
+		})
+	}
+	// absentCut: block b of f is only reached over the not-present edge of a lookup of the map under key
+	absentCut := func(f *ssa.Function, b *ssa.BasicBlock, key ssa.Value) bool {
+		for _, bb := range f.Blocks {
+			for _, ins := range bb.Instrs {
+				lk, ok := ins.(*ssa.Lookup)
+				if !ok || !lk.CommaOk || !isField(lk.X) || !p.SameValue(lk.Index, key) {
+					continue
+				}
+				for _, r := range *lk.Referrers() {
+					ex, isEx := r.(*ssa.Extract)
+					if !isEx || ex.Index != 1 {
+						continue
+					}
+					_, absent := eng.BoolEdges(f, func(v ssa.Value) bool { return v == ssa.Value(ex) })
+					if len(absent) > 0 && eng.Cut(f, b, absent) {
+						return true
+					}
+				}
+			}
+		}
+		return false
+	}
+	n := 0
+	for _, f := range p.Fns {
+		if p.IsTestSupport(f) {
+			continue
+		}
+		for _, b := range f.Blocks {
+			for _, ins := range b.Instrs {
+				mu, ok := ins.(*ssa.MapUpdate)
+				if !ok || !isField(mu.Map) {
+					continue
+				}
+				n++
+				good := absentCut(f, b, mu.Key)
+				if !good {
+					// the test may sit in the callers of a small register(key, fn) helper
+					if pa, isP := mu.Key.(*ssa.Parameter); isP {
+						idx := -1
+						for i, fp := range f.Params {
+							if fp == pa {
+								idx = i
+							}
+						}
+						sites := p.CallSitesOf(f)
+						good = idx >= 0 && len(sites) > 0
+						for _, s := range sites {
+							args := s.Ins.(ssa.CallInstruction).Common().Args
+							if idx >= len(args) || !absentCut(s.Fn, s.Ins.Block(), args[idx]) {
+								good = false
+							}
+						}
+					}
+				}
+				c.CheckAt(rule, short(f)+":close-function-registered-under-a-key-tested-absent", mu, good, "a close function is stored in the listener set under a key that was not tested absent on this path (another key was tested, or none): two listeners can share a slot, the overwritten one is never closed on reload and its generation keeps serving")
+			}
+		}
+	}
+	c.Floor(rule, "insertions into the close-function map", n, 2)
 }
